@@ -139,6 +139,13 @@ PendOthers(e) ==
 \* (none / live / confirmed / cancelled) and of the inputs its context names (no context / none chosen yet / gone / reserved
 \* for ANOTHER transaction / reserved / spent / free).  The behaviour selection covers every (step kind, situation) class.
 SitCls(e) ==
+  IF ActW(e) # "" /\ e.ev \in {"refresh", "scan"}
+  THEN \* a refresh / scan: has the wallet already looked at the chain at this height, and does it hold a record that
+       \* says Unspent for an output the chain no longer has (what a reorganisation leaves behind)?
+       LET wr == st.w[ActW(e)] IN
+       (IF wr.idx[wr.active].confh = Height(st) THEN "uptodate" ELSE "behind") \o "/" \o
+       (IF \E k \in DOMAIN wr.outs : wr.outs[k].st = "Unspent" /\ OID(st, ActW(e), k) \notin Utxo(st) THEN "stale-unspent" ELSE "consistent")
+  ELSE
   IF ActW(e) = "" \/ "sl" \notin DOMAIN e THEN ""
   ELSE LET wr == st.w[ActW(e)]
            sl == e.sl
